@@ -522,3 +522,163 @@ def channelfile_write_ok(x, proxyclose: bool, close_first: bool) -> bool:
     if proxyclose:
         return ch.isclosed() and len(gw.sent) == 3 and gw.sent[2][0] == gb.Message.CHANNEL_CLOSE
     return (not ch.isclosed()) and len(gw.sent) == 2
+
+
+# ---------------------------------------------------------------------------------------
+# C20: specs and group ids
+# ---------------------------------------------------------------------------------------
+
+def no_atexit():
+    """Group.__init__ registers an atexit hook; with symbolic members it only produces noise."""
+    import execnet.multi as multi
+
+    class _NoAtexit:
+        @staticmethod
+        def register(*a, **k):
+            return None
+
+    multi.atexit = _NoAtexit
+
+
+def spec_parses_faithfully(pairs, check_hash: bool = False) -> bool:
+    """pairs: list of (key, value-or-None); the statement's oracle for unique keys."""
+    from execnet.xspec import XSpec
+
+    text = "//".join((k if v is None else k + "=" + v) for k, v in pairs)
+    spec = XSpec(text)
+    for k, v in pairs:
+        want = True if v is None else v
+        if k.startswith("env:"):
+            if k[4:] not in spec.env:
+                return False
+            got = spec.env[k[4:]]
+        else:
+            got = getattr(spec, k)
+        if type(got) is not type(want) or got != want:
+            return False
+    n_env = len([1 for k, _ in pairs if k.startswith("env:")])
+    if len(spec.env) != n_env:
+        return False
+    if spec.zz_absent_name is not None:
+        return False
+    if str(spec) != text or spec._spec != text:
+        return False
+    twin = XSpec(text)
+    if not (spec == twin) or (spec != twin):
+        return False
+    if check_hash and (hash(spec) != hash(twin) or hash(spec) != hash(text)):  # hashing realises: concrete texts only
+        return False
+    other = XSpec(text + "//zz_extra")
+    if spec == other or not (spec != other):
+        return False
+    return True
+
+
+def spec_rejects_duplicate(pairs) -> bool:
+    from execnet.xspec import XSpec
+
+    text = "//".join((k if v is None else k + "=" + v) for k, v in pairs)
+    try:
+        XSpec(text)
+    except ValueError:
+        return True
+    return False
+
+
+class FakeGateway:
+    def __init__(self, id):
+        self.id = id
+
+
+def group_ids_consistent(ids, probe) -> bool:
+    """Register gateways with the given ids one after the other (a taken id must be refused),
+    then: no two members share an id; lookup by id / index / membership agree with iteration."""
+    from execnet.multi import Group
+
+    g = Group()
+    accepted = []
+    for i in ids:
+        gw = FakeGateway(i)
+        taken = False
+        for a in accepted:
+            if a.id == i:
+                taken = True
+        try:
+            g._register(gw)
+        except AssertionError:
+            if not taken and i:
+                return False
+            continue
+        if taken or not i:
+            return False
+        accepted.append(gw)
+    members = list(g)
+    if len(g) != len(accepted) or len(members) != len(accepted):
+        return False
+    for idx, gw in enumerate(accepted):
+        if members[idx] is not gw or g[idx] is not gw or g[gw.id] is not gw or g[gw] is not gw:
+            return False
+        if gw.id not in g or gw._group is not g:
+            return False
+    hit = None
+    for a in accepted:
+        if a.id == probe:
+            hit = a
+    if (probe in g) != (hit is not None):
+        return False
+    if hit is None:
+        try:
+            g[probe]
+            return False
+        except KeyError:
+            pass
+    elif g[probe] is not hit:
+        return False
+    # unregister the first member: it disappears from every view
+    if accepted:
+        first = accepted[0]
+        g._unregister(first)
+        if first.id in g or len(g) != len(accepted) - 1 or list(g) != accepted[1:]:
+            return False
+        if g._gateways_to_join != [first]:
+            return False
+    return True
+
+
+def group_autoids_unique(n_before: int, explicit) -> bool:
+    """allocate_id: automatic ids are pairwise distinct, distinct from live explicit ids, and an
+    automatic id colliding with a live explicit id is refused with ValueError."""
+    from execnet.multi import Group
+    from execnet.xspec import XSpec
+
+    g = Group()
+    live = []
+    for e in explicit:
+        s = XSpec("popen//id=" + e) if e else XSpec("popen")
+        try:
+            g.allocate_id(s)
+        except ValueError:
+            # only legitimate when the automatic id is already taken by a live member
+            if s.id is not None:
+                return False
+            continue
+        if not s.id:
+            return False
+        for gw in live:
+            if gw.id == s.id:
+                # explicit duplicate: must be caught at registration at the latest
+                try:
+                    g._register(FakeGateway(s.id))
+                except AssertionError:
+                    break
+                return False
+        else:
+            gw = FakeGateway(s.id)
+            g._register(gw)
+            live.append(gw)
+    ids = [gw.id for gw in live]
+    for a in range(len(ids)):
+        for b in range(a + 1, len(ids)):
+            if ids[a] == ids[b]:
+                return False
+    return True
